@@ -36,6 +36,14 @@ func testROM() []byte {
 		rom[a] = byte((a*31 + (a/256)*7 + 5) & 255)
 	}
 	rom[0x147], rom[0x148], rom[0x149] = 0, 0, 0
+	// interrupt handlers: INC B / C / D / E / H ; RETI ; NOPs
+	for i, op := range []byte{0x04, 0x0c, 0x14, 0x1c, 0x24} {
+		base := 0x40 + 8*i
+		for k := 0; k < 8; k++ {
+			rom[base+k] = 0
+		}
+		rom[base], rom[base+1] = op, 0xd9
+	}
 	return rom
 }
 
